@@ -99,9 +99,10 @@ operation leaves the protocol under which clients use an arena:
 
 * allocations go to existing buffers and keep them below 4 GB;
 * a slot is registered (make_ptr_relocatable) only if it lies inside used bytes, overlaps no registered
-  slot and currently holds NULL; a pointer is written and registered in one step by `ptr`
-  (write_data(&p) + make_ptr_relocatable) and must then point into another buffer (no raw pointer is
-  kept across an allocation of the buffer it points into);
+  slot and currently holds NULL — or a valid pointer is stored into it right before / after the
+  registration with no allocation in between (`regPtr`); a pointer is written and registered in one step
+  by `ptr` (write_data(&p) + make_ptr_relocatable) and must then point into another buffer (no raw
+  pointer is kept across an allocation of the buffer it points into);
 * a pointer stored into a registered slot is NULL or points to a used byte;
 * memcpy into allocated memory (`poke`) stays inside used bytes and touches no registered slot;
 * queries are made on registered slots / on references to used bytes. -/
@@ -184,6 +185,10 @@ def astep (x : AArena) : Op → Option (AArena × Out)
       if slot ∈ x.2 then some (x, .found (decRef (rd64 (aBody x slot.buf) slot.off))) else none
   | .rt target =>
       if ATarget x target = true then some (x, .found target) else none
+  | .regPtr slot target =>
+      if slot.buf < x.1.length ∧ slot.off + 8 ≤ (aBody x slot.buf).length ∧ aFree x slot.buf slot.off 8 = true ∧ ATarget x target = true then
+        some (aReg (aSet x slot (encRef target)) slot, .unit)
+      else none
 
 /-- a sequence of operations on the abstract arena with everything the client observes -/
 def arun : AArena → List Op → Option (AArena × List Out)
